@@ -126,6 +126,8 @@ partial def pExpr : Sexp → P Expr
   | .list [.atom "mval", r, t, n] => do pure (.mval (← pExpr r) (← pTy t) (← pName n))
   | .list [.atom "imval", r, n] => do pure (.imval (← pExpr r) (← pName n))
   | .list (.atom "struct" :: fs) => do pure (.structLit (← pExprs fs))
+  | .list [.atom "blankf", e] => do pure (.blankF (← pExpr e))
+  | .list [.atom "zeroarr", n, z] => do pure (.zeroArr (← pNat n) (← pExpr z))
   | .list (.atom "arr" :: es) => do pure (.arrLit (← pExprs es))
   | .list (.atom "slice" :: es) => do pure (.sliceLit (← pExprs es))
   | .list [.atom "make", z, l] => do pure (.make (← pExpr z) (← pExpr l) none)
